@@ -50,6 +50,29 @@ def instanceRunSched (discard : Bool) : List Token → InstanceRun
       let r := instanceRunSched discard rest
       { samples := discardedSample :: r.samples, shotsTaken := r.shotsTaken + 1, result := r.result }
 
+/-! ### the waiter (core/coreutil): when is a token overdue
+
+All times in nanoseconds since some epoch. `Waiter.Wait` for a token due at `next`: `lastNow` is the cached clock reading
+of the previous call, `now` the clock when this call reads it. -/
+
+/-- `coreutil.MaxOverdueDuration` -/
+def maxOverdue : Int := 2000000000
+
+/-- the `overdueDuration` that `Wait` stores before it returns true (statement by statement: the cached reading decides
+only whether the clock is read once or twice; the overdue is judged against the CURRENT time) -/
+def waiterOverdue (next lastNow now : Int) : Int :=
+  if next - lastNow ≤ 0 then now - next
+  else if next - now ≤ 0 then 0 - (next - now)
+  else 0
+
+/-- `Waiter.IsSlowDown` (context alive) -/
+def isSlowDown (overdue : Int) : Bool := decide (overdue ≥ maxOverdue)
+
+/-- a token as the clock makes it: due at `due`, the instance asks for it at `asked` (after the previous shot returned —
+a slow target makes `asked` late), the cached reading `lastNow` is from before -/
+def tokenAt (due lastNow asked : Int) (shot : ShotResult) : Token :=
+  { slowDown := isSlowDown (waiterOverdue due lastNow asked), shot := shot }
+
 /-- what one token contributes to the aggregator -/
 def tokenSamples (discard : Bool) (t : Token) : List Sample :=
   if shootCond discard t.slowDown then t.shot.reports else [discardedSample]
